@@ -124,6 +124,9 @@ func judgeC07(sc *BatchSc, x *batchExec, br batchRun, fail string) Verdict {
 	if br.Panic != "" {
 		return bad("C07:panic", "run panicked: %s", br.Panic)
 	}
+	if sc.DeadlineMs > 0 && br.CtxErr != nil {
+		return ok(false, "deadline-expired") // the deadline did strike: C11/C20's business
+	}
 	if fp, msg := judgeItems("C07", sc, x, br); msg != "" {
 		return bad(fp, "%s", msg)
 	}
@@ -173,6 +176,9 @@ func judgeC07(sc *BatchSc, x *batchExec, br batchRun, fail string) Verdict {
 	}
 	if sc.budget() > 1 {
 		cls = append(cls, "budget>1")
+	}
+	if sc.DeadlineMs > 0 {
+		cls = append(cls, "live-deadline")
 	}
 	return ok(len(distinct) >= 2 && failing >= 1 && sc.C >= 2, cls...)
 }
@@ -262,7 +268,7 @@ func TestC07(t *testing.T) {
 		i++
 	})
 	r.exhaustive(fmt.Sprintf("every assignment of per-item scripts (exec ok/fail per attempt for budget+1 attempts, fallback ok/err) for n<=%d items, budget<=2, c in 0..3, with/without fallback, two release orders: %d cases", r.pick(2, 3), n))
-	g := batchGen{MinN: 1, MaxN: 32, MaxC: 8, Modes: []int{0, 1}, MaxBudget: 4, PFail: 450, PResErr: 40, PPreErr: 40, Fb: true, Gated: 1, MaxSched: 120, Rerun: true, Waits: true}
+	g := batchGen{MinN: 1, MaxN: 32, MaxC: 8, Modes: []int{0, 1}, MaxBudget: 4, PFail: 450, PResErr: 40, PPreErr: 40, Fb: true, Gated: 1, MaxSched: 120, Rerun: true, Waits: true, LiveDeadline: true}
 	rapidPart(r, "rand-gated", r.pick(2000, 30000), g.gen, checkC07)
 	g2 := g
 	g2.Gated = 0
